@@ -425,7 +425,8 @@ def C.hello (c : C) : C × Option CErr :=
       match c.cmd 250 ((if c.lmtp then "LHLO ".b else "EHLO ".b) ++ c.localName) with
       | (c, .ok _ msg) => ({ c with ext := parseExt msg }, none)
       | (c, .smtpErr e) =>
-        if e.code == 500 || e.code == 502 then
+        -- EHLO not understood: fall back to HELO — not in LMTP, which has no other greeting than LHLO
+        if (e.code == 500 || e.code == 502) && !c.lmtp then
           let c := { c with ext := [] }
           match c.cmd 250 ("HELO ".b ++ c.localName) with
           | (c, r) => ({ c with helloErr := rrErr r }, rrErr r)
